@@ -17,14 +17,21 @@ else
   cp "$patch" "$W/p.diff"
 fi
 ( cd "$W/repo" && patch -p1 --no-backup-if-mismatch < "$W/p.diff" >/dev/null ) || { echo "PATCH FAILED"; rm -rf "$W"; exit 3; }
+# shared build cache: cargo hashes path packages relative to the workspace root, so freshness
+# across copies is decided by mtime alone - make every source of the copy newer than any artifact
+find "$W/repo/src" "$W/verif/harness/src" -type f -exec touch {} +
 export CARGO_TARGET_DIR=/tmp/cfb-mut-target CARGO_NET_OFFLINE=true
 if [ "${MUT_TESTS:-0}" = 1 ]; then
-  ( cd "$W/repo" && cargo test --workspace --no-fail-fast --offline 2>&1 | grep -E "^test result|FAILED|panicked|error(\[|:)" | sort | uniq -c | head -12 )
+  ( flock 9; cd "$W/repo" && cargo test --workspace --no-fail-fast --offline 2>&1 | grep -E "^test result|FAILED|panicked|error(\[|:)" | sort | uniq -c | head -12 ) 9>/tmp/cfb-mut.lock
 fi
-( cd "$W/verif/harness" && cargo build --profile checked >"$W/out/build.log" 2>&1 ) || { echo "BUILD FAILED"; tail -20 "$W/out/build.log"; rm -rf "$W"; exit 3; }
+# the build cache is shared between runs: build and take a private copy of the binary under a lock
+( flock 9
+  ( cd "$W/verif/harness" && cargo build --profile checked >"$W/out/build.log" 2>&1 ) && cp /tmp/cfb-mut-target/checked/cfbverif "$W/out/cfbverif"
+) 9>/tmp/cfb-mut.lock
+[ -x "$W/out/cfbverif" ] || { echo "BUILD FAILED"; tail -20 "$W/out/build.log"; rm -rf "$W"; exit 3; }
 for id in "$@"; do
   VERIF_REPLAY_DIR="$W/out/replays" VERIF_EVIDENCE_DIR="$W/out/evidence" VERIF_SCRATCH="$W/out/scratch" VERIF_SCALE_PCT="${MUT_SCALE:-100}" \
-    /tmp/cfb-mut-target/checked/cfbverif check "$id" quick > "$W/out/$id.log" 2>&1
+    "$W/out/cfbverif" check "$id" quick > "$W/out/$id.log" 2>&1
   rc=$?
   echo "$id exit=$rc  $(grep -m1 -E '^worker|^replay|^extra' "$W/out/$id.log" | cut -c1-220)"
 done
